@@ -39,6 +39,9 @@ Definition fLI := 10. (* pending: incoming balls whose ball_missing_timeout expi
                          lost_incoming_ball not yet called *)
 Definition fRDY := 11. (* 1: the readiness check of the current eject attempt has been passed and announced
                           (balldevice_d_ejecting_ball posted right after wait_for_ready_to_receive returned) *)
+Definition fKIND := 12. (* how the device counts: 1 = ball switches (one seat per switch: SwitchCounter.is_ready_to_receive
+                           looks at the debounced switches), 0 = entrance switch / unknown; set by the configuration
+                           label LKind at the start of a run *)
 Definition UNCONF : Z := 100.   (* list entry s + UNCONF: ball of source s that has not passed its confirm
                                    switch/event yet (IncomingBall.can_arrive = False) *)
 
@@ -146,6 +149,11 @@ Inductive label :=
 | LConfirmed (d t : Z)      (* IncomingBall._external_confirm: it did; ball_missing_timeout runs at the target *)
 | LIncTimeout (t s : Z)     (* IncomingBallsHandler._run: the confirmed ball of s did not arrive at t in time *)
 | LIncLost (t s : Z)        (* BallDevice.lost_incoming_ball(source = s) called at t *)
+| LKind (d k : Z)           (* configuration: d counts its balls with ball switches (k = 1) / an entrance switch (0) *)
+| LSearchPulse (d : Z)      (* ball search, phase 1 (DefaultBallSearch.ball_search): the eject coil of d is fired to shake
+                               a stuck ball loose; only a device that is idle and holds no ball *)
+| LGiveUp (dk db da : Z)    (* BallSearch.give_up: num_balls_known -dk, playfield.balls -db, playfield.available_balls -da
+                               (the balls MPF believed loose are written off) *)
 | SLeave (s t : Z)          (* physical: a ball leaves s (device or PF) towards t; t = s: it will fall back *)
 | SArrive (s t : Z)         (* physical: it arrives in device t *)
 | SBounce (s t : Z)         (* physical: t is full, the ball ends up loose on the playfield *)
@@ -237,7 +245,10 @@ Definition step (c : cfg) (x : st) (l : label) : option st :=
       if negb (isdev c d && ((t =? PF) || isdev c t)) then None else
       let x1 := setf (setf x fTG d t) fRDY d 1 in
       if t =? PF then Some (addz x1 zREQP 1)
-      else guard (Z.of_nat (length (others d (inc x t))) <? cap c t - f x fC t) x1
+      else guard ((Z.of_nat (length (others d (inc x t))) <? cap c t - f x fC t)
+                  (* ... and, third clause of the readiness check (counter.is_ready_to_receive of a switch counter:
+                     every switch debounced and not all of them active), a seat physically free at that moment *)
+                  && (negb (f x fKIND t =? 1) || (f x fPH t <? cap c t))) x1
   | LPfReq delta =>
       if delta =? 1 then guard (1 <=? z x zREQP) (addz (addz x zREQP (-1)) zR 1)
       else if delta =? -1 then guard (1 <=? z x zREQM) (addz (addz x zREQM (-1)) zR (-1))
@@ -298,6 +309,15 @@ Definition step (c : cfg) (x : st) (l : label) : option st :=
       guard (isdev c t && isdev c s && memz s (inc x t)) (addf (setinc x t (remove1 s (inc x t))) fLI t 1)
   | LIncLost t s =>
       guard (isdev c t && isdev c s && (1 <=? f x fLI t)) (setz (setz (addf x fLI t (-1)) zLASTF s) zILT t)
+  | LKind d k => guard (isdev c d) (setf x fKIND d k)
+  | LSearchPulse d => guard (isdev c d && (f x fS d =? IDLE) && (f x fC d =? 0)) x
+  | LGiveUp dk db da =>
+      (* lost_balls = playfield.balls; num_balls_known -= lost_balls; playfield.balls = 0;
+         playfield.available_balls -= lost_balls (FIXED code, fixes/C04-give-up-keeps-promised-balls.patch; the
+         unfixed code sets available_balls = 0: giveup_unfixed below) *)
+      let n := z x zB in
+      guard ((0 <=? n) && (dk =? n) && (db =? n) && (da =? n))
+            (addz (addz (addz x zK (- n)) zB (- n)) zPA (- n))
   | SLeave s t =>
       if s =? PF then
         guard (isdev c t && (1 <=? z x zLOOSE)) (addz (addz x zLOOSE (-1)) zTR 1)
@@ -319,6 +339,10 @@ Definition step (c : cfg) (x : st) (l : label) : option st :=
   | LRest => guard (books_closedb c x) x
   | LStray => None
   end.
+
+(* BallSearch.give_up as it is WITHOUT the fix: playfield.available_balls = 0 *)
+Definition giveup_unfixed (x : st) : st :=
+  let n := z x zB in setz (addz (addz x zK (- n)) zB (- n)) zPA 0.
 
 (* ---------------------------------------------------------------------------------------------- *)
 (* replay *)
